@@ -48,7 +48,8 @@ pub struct ReplySpec {
     pub continues: bool,
     /// 0 = an ordinary reply; otherwise the exchange fails here at the top level and the stream
     /// must end with an `Err` item: 1 = an org.varlink.service error reply, 2 = a frame that is
-    /// not JSON, 3 = the peer closes instead of sending this reply. Later replies are not sent.
+    /// not JSON, 3 = the peer closes instead of sending this reply, 4 = the transport read fails
+    /// (connection reset) instead of delivering this reply. Later replies are not sent.
     #[serde(default)]
     pub term: u8,
     /// insignificant white space around the reply's JSON: 0 none, 1 "\n" after (what encoders
@@ -151,7 +152,7 @@ pub fn run_case(case: &Case) -> (Class, CaseResult) {
     let chunks = split_at_cuts(&stream, &case.cuts);
     let mut script: Vec<ReadEv> = chunks.into_iter().map(ReadEv::Data).collect();
     if case.closes() {
-        script.push(ReadEv::Eof);
+        script.push(if case.term_at().is_some_and(|i| case.replies[i].term == 4) { ReadEv::Err } else { ReadEv::Eof });
     }
     let term_at = case.term_at();
     let (sock, handle) = SimSocket::with_script(script);
@@ -336,7 +337,7 @@ fn reply_strategy() -> impl Strategy<Value = ReplySpec> {
         prop::bool::weighted(0.2),
         any::<bool>(),
         // one reply in ten is where the exchange fails at the top level
-        prop_oneof![9 => Just(0u8), 1 => 1u8..=3],
+        prop_oneof![9 => Just(0u8), 1 => 1u8..=4],
         prop_oneof![6 => Just(0u8), 2 => Just(1u8), 1 => 2u8..=4],
     )
         .prop_map(|(len, err, continues, term, ws)| ReplySpec { len, err, continues, term, ws })
@@ -381,7 +382,8 @@ pub fn check_case(case: &Case, stats: &mut Stats) -> CaseResult {
             match case.term_at().map(|i| case.replies[i].term) {
                 Some(1) => stats.class("class-A:ends-with-service-error-reply"),
                 Some(2) => stats.class("class-A:ends-with-undecodable-reply"),
-                Some(_) => stats.class("class-A:ends-with-peer-close"),
+                Some(3) => stats.class("class-A:ends-with-peer-close"),
+                Some(_) => stats.class("class-A:ends-with-transport-read-error"),
                 None => {}
             }
             let total = case.stream().len();
